@@ -5,8 +5,9 @@ Writes /verif/seeded/<id>/{patch.diff,demo/,meta.json} when everything is confir
 usage: seedverify.py <Cxx> <mN> [--features image|svg] [--wasm] [--demo-cmd "..."]"""
 import glob, json, os, re, shutil, subprocess, sys, time
 prop, m = sys.argv[1], sys.argv[2]
-src = "/tmp/seed/%s-out/%s" % (prop, m)
-sid = "%s-%s" % (prop, m)
+ROOT = os.environ.get("SEED_ROOT", "/tmp/seed")
+src = "%s/%s-out/%s" % (ROOT, prop, m)
+sid = "%s-%s" % (prop, m.replace("m", os.environ.get("SEED_TAG", "m")))
 wt = "/tmp/sv/%s" % sid
 tgt = "/tmp/sv/target-%s" % prop
 os.makedirs("/tmp/sv", exist_ok=True)
@@ -58,14 +59,14 @@ try:
     shutil.rmtree(os.path.join(wt, "tests"), ignore_errors=True)
     subprocess.run(["git", "-C", wt, "apply", patch], check=True)
     fired = {}
-    for i in range(1, 20):
-        pr = "C%02d" % i
-        c = subprocess.run(["/verif/check", pr, "--repo", wt], capture_output=True, text=True, cwd="/verif")
-        keys = re.findall(r"VIOLATION property=\S+ replay=\S+/replay/[A-Z0-9]+-(\S+)\.json", c.stdout)
-        rules = sorted(set(re.findall(r"^  rule=(\S+)", c.stdout, re.M)))
-        und = re.findall(r"UNDECIDED rule=(\S+)", c.stdout)
-        if keys or und or c.returncode:
-            fired[pr] = {"exit": c.returncode, "rules": rules, "violations": keys[:6], "undecided": und[:3]}
+    c = subprocess.run(["/verif/check", "ALL", "--repo", wt], capture_output=True, text=True, cwd="/verif", env=dict(os.environ, FQR_GEOM_ALL="1"))
+    for mm in re.finditer(r"^==== (C\d\d)\n(.*?)^==== \1 exit=(\d)", c.stdout, re.S | re.M):
+        pr, body, rc = mm.group(1), mm.group(2), int(mm.group(3))
+        keys = re.findall(r"VIOLATION property=\S+ replay=\S+/replay/[A-Z0-9]+-(\S+)\.json", body)
+        rules = sorted(set(re.findall(r"^  rule=(\S+)", body, re.M)))
+        und = re.findall(r"UNDECIDED rule=(\S+)", body)
+        if keys or rc:
+            fired[pr] = {"exit": rc, "rules": rules, "violations": keys[:6], "undecided": sorted(set(und))[:3]}
     meta["checks"] = fired
     ok = (meta["demo_pristine"]["exit"] == 0 and meta["suite_with_change"]["exit"] == 0 and meta["demo_with_change"]["exit"] != 0
           and (not feat or meta["suite_with_change_features"]["exit"] == 0))
